@@ -384,6 +384,10 @@ let c13_prim_chain data chunks eof fail scope script =
           let p = !parent.(!cur) in
           let i' = N.modulo (N.add !idx.(p) !idx.(!cur)) two64 in
           !idx.(p) <- i'; cur := p; parts := ("up" ^ hn i') :: !parts
+        | 'r' when (let k = arg () in N.ltb N0 k &&
+                    (N.ltb (N.sub (N.sub two64 (n_of_int 1)) !idx.(!cur)) k || N.ltb !mx.(!cur) (N.add !idx.(!cur) k))) ->
+          (* checkedIndexUpdate refuses before the stream is touched: nothing changes *)
+          parts := "REF" :: !parts
         | 'r' ->
           let ks = chain !cur in
           (match dr_read_io_chain !u (List.map (fun k -> !lim.(k)) ks) !idx.(!cur) !mx.(!cur) (arg ()) with
